@@ -29,11 +29,22 @@
 (*                             CV workers that seed and draw themselves, joins them, and only then draws its *)
 (*                             own shuffle.  KMeans / KMeans++ / EPLS called directly are the degenerate     *)
 (*                             case in which the workers' programs are empty (they never touch the word).    *)
-EXTENDS Naturals, Sequences, FiniteSets, TLC, Json
+(*   "foreign"  workers: S D^K, foreign caller (process NW+1): S D^K                                         *)
+(*                             "regardless of what other library calls run concurrently": while the workers  *)
+(*                             of a validation call run, ANOTHER thread of the application seeds and draws   *)
+(*                             (any of the drawing routines, or a plain srand_/randInt loop) - with the SAME  *)
+(*                             seed value as worker 1, so that equal seeds on two threads are covered: the   *)
+(*                             two streams are equal and still independent.  The conformance harness runs    *)
+(*                             the real CV with NW workers next to a disturber thread (and every directly    *)
+(*                             called drawing routine next to a disturber) under the words of this shape.    *)
+(* RngState.tla names the C state the model speaks about (the shared-variable set the ThreadSanitizer block  *)
+(* is judged against): word = "XOR128_SEED", drawn/pc/ip = "worker-local".                                    *)
+EXTENDS Naturals, Sequences, FiniteSets, TLC, Json, RngState
 CONSTANTS NW, K, PerThread, Shape        \* NW workers 1..NW, K draws per draw phase
 Workers == 1..NW
 Caller == 0
-Procs == IF Shape = "forkjoin" THEN {Caller} \cup Workers ELSE Workers
+Foreign == NW + 1
+Procs == IF Shape = "forkjoin" THEN {Caller} \cup Workers ELSE IF Shape = "foreign" THEN Workers \cup {Foreign} ELSE Workers
 M == 101
 Gen(s) == (5 * s + 3) % M          \* stands for generate_seed(): an injective step on a small domain
 Unset == M                          \* "no value": what a process would read from a word nobody seeded
@@ -43,9 +54,11 @@ Prog(p) == CASE Shape = "seedDraw" -> <<"S">> \o Rep("D", K)
              [] Shape = "reseed"   -> <<"S">> \o Rep("D", K) \o <<"S">> \o Rep("D", K)
              [] Shape = "unseeded" -> Rep("D", K)
              [] Shape = "forkjoin" -> IF p = Caller THEN <<"S", "F", "J">> \o Rep("D", K) ELSE <<"S">> \o Rep("D", K)
+             [] Shape = "foreign"  -> <<"S">> \o Rep("D", K)
 \* the j-th seed a process passes to srand_: distinct per process for the first one (base + th + iteration_),
 \* a function of the inputs only for the later ones (EPLS members)
-SeedOf(p, j) == IF j = 1 THEN p + 1 ELSE 40 + j
+\* (the foreign caller passes the seed of worker 1)
+SeedOf(p, j) == IF j = 1 THEN (IF Shape = "foreign" /\ p = Foreign THEN 2 ELSE p + 1) ELSE 40 + j
 Seed(w) == SeedOf(w, 1)
 Cell(p) == IF PerThread THEN p ELSE 0
 Cells == IF PerThread THEN Procs ELSE {0}
@@ -116,6 +129,12 @@ StreamIsolation == \A p \in Procs : drawn[p] = SubSeq(Expected(p), 1, Len(drawn[
 NoClock == \A p \in Procs : ~clocked[p]
 \* the old name of the K-draw stream of a worker (kept for the seedDraw shape): Expected(w) = Stream(Gen(Seed(w)), K)
 SeedDrawStream == Shape = "seedDraw" => \A w \in Workers : Expected(w) = Stream(Gen(Seed(w)), K)
+\* a run with N threads equals the sequential run: at the end every process has consumed exactly the stream it consumes when it runs alone
+EqualsSequential == AllDone => \A p \in Procs : drawn[p] = Expected(p)
+\* equal seeds on two threads give equal, still independent streams (shape "foreign")
+ForeignTwin == (Shape = "foreign" /\ AllDone) => drawn[Foreign] = drawn[1]
+\* the generator word is thread-private state of the model (RngState.tla): with one cell per thread no cell is ever shared
+WordPrivate == PerThread => (Cardinality(Cells) = Cardinality(Procs) /\ "XOR128_SEED" \in ThreadPrivate)
 \* GEN: every complete schedule word (one letter per hooked step of every process)
 Emit == AllDone => PrintT("@@" \o ToJson([sched |-> sched, isolated |-> StreamIsolation]))
 ====
